@@ -13,6 +13,7 @@ import (
 
 	protocol "github.com/hujm2023/go-sms-protocol"
 	"github.com/hujm2023/go-sms-protocol/cmpp"
+	"github.com/hujm2023/go-sms-protocol/cmpp/cmpp20"
 	"github.com/hujm2023/go-sms-protocol/codec"
 	"github.com/hujm2023/go-sms-protocol/datacoding"
 	"github.com/hujm2023/go-sms-protocol/smgp/smgp30"
@@ -74,7 +75,21 @@ type hres struct {
 	label string // site for finding keys
 }
 
-var hopName = []string{"decode", "encode", "String", "split", "ParseLongSmsContent", "Utf8ToUcs2Pooled", "ExtractDeliveryReceipt", "Build"}
+var hopName = []string{"decode", "encode", "String", "split", "ParseLongSmsContent", "Utf8ToUcs2Pooled", "ExtractDeliveryReceipt", "Build", "helper-packet"}
+
+// withBirth carries a result together with the snapshot taken the moment it
+// was returned (before the fault injector touched a sibling output).
+type withBirth struct {
+	live  any
+	birth any
+}
+
+func unwrap(v any) (live, birth any) {
+	if w, ok := v.(withBirth); ok {
+		return w.live, w.birth
+	}
+	return v, nil
+}
 
 // snapshot deep-copies a result, cloning strings too (a string that shares
 // memory with a reused buffer must be caught).
@@ -186,7 +201,7 @@ func genHistory(c *core.Chooser, prop string, tid int, maxOps int) []hop {
 	ops := make([]hop, 0, n)
 	for i := 0; i < n; i++ {
 		var o hop
-		weights := []int{5, 4, 2, 2, 1, 2, 1, 0}
+		weights := []int{5, 4, 2, 2, 1, 2, 1, 0, 2}
 		if prop == "C13" {
 			weights[7] = 2
 		}
@@ -222,6 +237,9 @@ func genHistory(c *core.Chooser, prop string, tid int, maxOps int) []hop {
 		case 6:
 			o.smpp = c.Bool()
 			o.text = fmt.Sprintf("id:%s sub:001 dlvrd:001 submit date:2401011200 done date:2401011201 stat:%s err:000 text:%s", c.Blob(10, "digits"), c.Blob(7, "print"), c.Blob(c.Intn(20), "digits"))
+		case 8:
+			o.coding = c.Intn(8)      // which helper
+			o.ref = byte(c.Intn(256)) // low octet of the sequence number
 		case 7:
 			o.smpp = c.Bool()
 			o.text = genSMSText(c, famGSM7U, 20+c.Intn(300), nil2run)
@@ -300,12 +318,13 @@ func execOp(r *core.Run, t *taskState, o hop) (live any, label string, panicked 
 				live = "encode error"
 				return
 			}
+			pre := snapshot(b)
 			// FAULT scribble_output: a second output of the same call is overwritten by its owner
 			b2, _ := ToGo(o.msg).IEncode()
 			for i := range b2 {
 				b2[i] = 0xC3
 			}
-			live = b
+			live = withBirth{live: b, birth: pre}
 		})
 		return live, label, p
 	case 2:
@@ -359,6 +378,29 @@ func execOp(r *core.Run, t *taskState, o hop) (live any, label string, panicked 
 			for i := range buf {
 				buf[i] = 0x5A
 			}
+		})
+		return live, label, p
+	case 8:
+		helpers := []struct {
+			name string
+			f    func(uint32) []byte
+		}{
+			{"cmpp20.NewActiveTestPacket", cmpp20.NewActiveTestPacket}, {"cmpp20.NewTerminatePacket", cmpp20.NewTerminatePacket}, {"smgp30.NewActiveTestPacket", smgp30.NewActiveTestPacket},
+			{"smpp34.NewEnquireLinkReqBytes", smpp34.NewEnquireLinkReqBytes}, {"smpp34.NewEnquireLinkRespBytes", smpp34.NewEnquireLinkRespBytes}, {"smpp34.NewUnBindRespBytes", smpp34.NewUnBindRespBytes},
+			{"smpp34.NewDeliverySMRespBytes", smpp34.NewDeliverySMRespBytes}, {"smpp34.NewUnBindBytes", smpp34.NewUnBindBytes},
+		}
+		h := helpers[o.coding%len(helpers)]
+		label = h.name
+		p := r.Call(label, func() {
+			seq := uint32(t.id)<<16 | uint32(o.ref)
+			b := h.f(seq)
+			pre := snapshot(b)
+			// FAULT scribble_output: another packet from the same helper is overwritten by its owner
+			b2 := h.f(seq ^ 0xffff)
+			for i := range b2 {
+				b2[i] = 0xC3
+			}
+			live = withBirth{live: b, birth: pre}
 		})
 		return live, label, p
 	default:
@@ -439,12 +481,16 @@ func runHistories(r *core.Run, prop string) {
 	for _, t := range tasks {
 		ref := newTaskState(nil2run, t.id, t.ops, simnet.Compact)
 		for _, o := range t.ops {
-			live, label, p := execOp(nil2run, ref, o)
+			lv, label, p := execOp(nil2run, ref, o)
 			if p != nil {
 				r.Fail(prop, "panic", p.Frame, p.Kind, "%s panicked in the sequential pass: %s", label, p.Value)
 				return
 			}
-			t.ref = append(t.ref, hres{kind: o.kind, snap: snapshot(live), label: label})
+			live, birth := unwrap(lv)
+			if birth == nil {
+				birth = snapshot(live)
+			}
+			t.ref = append(t.ref, hres{kind: o.kind, snap: birth, label: label})
 		}
 	}
 
@@ -475,19 +521,23 @@ func runHistories(r *core.Run, prop string) {
 		t := t
 		s.Go(fmt.Sprintf("task%d", t.id), func() {
 			for i, o := range t.ops {
-				live, label, p := execOp(r, t, o)
+				lv, label, p := execOp(r, t, o)
 				if p != nil {
 					r.Fail(prop, "panic", p.Frame, p.Kind, "task %d: %s panicked: %s", t.id, label, p.Value)
 					failed = true
 					return
 				}
+				live, birth := unwrap(lv)
 				if o.kind == 0 {
 					r.Fault("scribble_input")
 				}
 				if o.kind == 1 {
 					r.Fault("scribble_output")
 				}
-				res := hres{kind: o.kind, live: live, snap: snapshot(live), label: label}
+				if birth == nil {
+					birth = snapshot(live)
+				}
+				res := hres{kind: o.kind, live: live, snap: birth, label: label}
 				t.res = append(t.res, res)
 				// (2) equal to the sequential reference at birth
 				if ok, what := sameValue(t.ref[i].snap, res.snap); !ok {
@@ -500,7 +550,7 @@ func runHistories(r *core.Run, prop string) {
 				if lo < 0 {
 					lo = 0
 				}
-				for j := lo; j < len(t.res)-1; j++ {
+				for j := lo; j < len(t.res); j++ {
 					if ok, what := sameValue(t.res[j].snap, t.res[j].live); !ok {
 						r.Fail(prop, "result-changed-later", t.res[j].label, hopName[t.res[j].kind]+"/"+what, "task %d: the result of operation %d (%s) changed after operation %d (%s)", t.id, j, hopName[t.res[j].kind], i, hopName[o.kind])
 						failed = true
@@ -536,7 +586,7 @@ func runHistories(r *core.Run, prop string) {
 // seeded Gosched at every yield site. It is meant to run under the race
 // detector. It returns a description of the first result that differs from
 // the sequential pass, or "".
-func RaceWorkload(seed uint64, idx uint64) (mismatch string, tasks, ops int) {
+func RaceWorkload(seed uint64, idx uint64, cold bool) (mismatch string, tasks, ops int) {
 	c := core.NewSeedChooser(core.Mix(seed, "C13/race", idx))
 	r := core.NewRun(c, core.Config{Property: "C13", Scenario: "concurrent", Mode: "race"}, nil)
 	nTasks := 2 + c.Size(30, 2, 4, 8)
@@ -544,15 +594,29 @@ func RaceWorkload(seed uint64, idx uint64) (mismatch string, tasks, ops int) {
 	for i := 0; i < nTasks; i++ {
 		ts = append(ts, newTaskState(r, i, genHistory(c, "C13", i, 14), simnet.Compact))
 	}
-	for _, t := range ts {
-		ref := newTaskState(nil2run, t.id, t.ops, simnet.Compact)
-		for _, o := range t.ops {
-			live, label, p := execOp(nil2run, ref, o)
-			if p != nil {
-				return "panic in sequential pass: " + p.Value, nTasks, 0
+	reference := func() string {
+		for _, t := range ts {
+			ref := newTaskState(nil2run, t.id, t.ops, simnet.Compact)
+			for _, o := range t.ops {
+				lv, label, p := execOp(nil2run, ref, o)
+				if p != nil {
+					return "panic in sequential pass: " + p.Value
+				}
+				live, birth := unwrap(lv)
+				if birth == nil {
+					birth = snapshot(live)
+				}
+				t.ref = append(t.ref, hres{kind: o.kind, snap: birth, label: label})
+				ops++
 			}
-			t.ref = append(t.ref, hres{kind: o.kind, snap: snapshot(live), label: label})
-			ops++
+		}
+		return ""
+	}
+	// cold start: the concurrent pass runs FIRST in this process (lazily initialised library state is
+	// still untouched) and the sequential reference is computed afterwards
+	if !cold {
+		if m := reference(); m != "" {
+			return m, nTasks, 0
 		}
 	}
 	var ctr atomic.Uint64
@@ -565,30 +629,51 @@ func RaceWorkload(seed uint64, idx uint64) (mismatch string, tasks, ops int) {
 	defer func() { verifhook.YieldFn = nil }()
 	var wg sync.WaitGroup
 	var mu sync.Mutex
+	start := make(chan struct{})
 	for _, t := range ts {
 		t := t
 		wg.Add(1)
 		go func() {
 			defer wg.Done()
+			<-start
 			for i, o := range t.ops {
-				live, label, p := execOp(r, t, o)
+				lv, label, p := execOp(r, t, o)
 				var m string
 				if p != nil {
 					m = fmt.Sprintf("task %d op %d %s panicked: %s", t.id, i, label, p.Value)
-				} else if ok, what := sameValue(t.ref[i].snap, snapshot(live)); !ok {
-					m = fmt.Sprintf("task %d op %d %s (%s) differs from the sequential pass: %s", t.id, i, label, hopName[o.kind], what)
 				}
+				live, birth := unwrap(lv)
+				if birth == nil {
+					birth = snapshot(live)
+				}
+				mu.Lock()
+				t.res = append(t.res, hres{kind: o.kind, snap: birth, label: label})
+				if m != "" && mismatch == "" {
+					mismatch = m
+				}
+				mu.Unlock()
 				if m != "" {
-					mu.Lock()
-					if mismatch == "" {
-						mismatch = m
-					}
-					mu.Unlock()
 					return
 				}
 			}
 		}()
 	}
+	close(start)
 	wg.Wait()
+	if mismatch != "" {
+		return mismatch, nTasks, ops
+	}
+	if cold {
+		if m := reference(); m != "" {
+			return m, nTasks, 0
+		}
+	}
+	for _, t := range ts {
+		for i := range t.res {
+			if ok, what := sameValue(t.ref[i].snap, t.res[i].snap); !ok {
+				return fmt.Sprintf("task %d op %d %s (%s) differs from the sequential pass: %s", t.id, i, t.res[i].label, hopName[t.res[i].kind], what), nTasks, ops
+			}
+		}
+	}
 	return mismatch, nTasks, ops
 }
